@@ -157,7 +157,151 @@ def query(m, kind, loc, r, max_elmt):
         return m.nodes_closeto(loc, max_dist=r, max_elmt=max_elmt) if kind == 'nodes' else m.edges_closeto(loc, max_dist=r, max_elmt=max_elmt)
 
 
+LATLON_GRID = [   # (node coordinates, query, radius in metres): nearest in metres differs from nearest in degrees away from the equator
+    ({1: (60.0, 10.0015), 2: (60.0010, 10.0), 3: (60.0, 10.0040)}, (60.0, 10.0), 300.0),
+    ({1: (60.0010, 10.0), 2: (60.0, 10.0015), 3: (59.9980, 10.0)}, (60.0, 10.0), 300.0),
+    ({1: (-45.0, 170.0012), 2: (-45.0009, 170.0), 3: (-45.0, 169.9970)}, (-45.0, 170.0), 500.0),
+    ({1: (0.0, 0.0010), 2: (0.0012, 0.0), 3: (0.0, -0.0030)}, (0.0, 0.0), 400.0),
+    ({1: (50.87, 4.7010), 2: (50.8705, 4.70), 3: (50.88, 4.70)}, (50.87, 4.70), 100.0),
+    ({1: (60.0016, 10.0), 2: (60.0, 10.0020), 3: (60.0, 10.0018)}, (60.0, 10.0), 300.0),
+]
+
+
+def concrete_latlon(graph, cc, loc, r, max_elmt):
+    """SqliteMap(use_latlon=True).nodes_closeto on doubles with the real sqlite3; oracle: full scan with the map's own distance."""
+    import contextlib
+    import io
+    import shutil
+    from harness import sqlcommon
+    from leuvenmapmatching.map.sqlite import SqliteMap
+    from leuvenmapmatching.util import dist_latlon as dl
+    d = sqlcommon.scratch_dir()
+    try:
+        with contextlib.redirect_stdout(io.StringIO()):
+            m = SqliteMap("c11_latlon_replay", use_latlon=True, dir=d)
+            for n in graph:
+                m.add_node(n, cc[n])
+        try:
+            res = m.nodes_closeto(loc, max_dist=r, max_elmt=max_elmt)
+        except Exception as e:
+            return f"raised {e!r}"
+        finally:
+            m.db.close()
+        inside = sorted((dl.distance(loc, cc[n]), n) for n in graph if dl.distance(loc, cc[n]) < r)
+        want = inside if max_elmt is None else inside[:max_elmt]
+        got = [(row[0], row[1]) for row in res]
+        if [n for _, n in got] != [n for _, n in want] and [round(x, 6) for x, _ in got] != [round(x, 6) for x, _ in want]:
+            return f"returned {got}, but the nodes within the radius are {inside}"
+        return None
+    finally:
+        shutil.rmtree(d, ignore_errors=True)
+
+
+def run_latlon_topk(inst):
+    """SqliteMap(use_latlon=True).nodes_closeto with max_elmt.  The map's geodesic primitives are replaced by symbolic stand-ins
+    (distance: one fresh value >= 0 per point pair; box_around_point: a fresh box containing the point - their correctness is C14's
+    subject), so what is decided is the ORDER logic of the query on a metric that is NOT the planar one the SQL columns suggest: the
+    returned rows are sorted by the map's distance, lie within the radius, are at most max_elmt, and no node that passed the box filter
+    and lies within the radius is nearer than a returned one while being omitted.  Counterexamples are confirmed on a grid of concrete
+    lat-lon configurations with the real sqlite3 and the real trigonometry."""
+    import shutil
+    from symx import sqlshim
+    from harness import sqlcommon
+    from leuvenmapmatching.map.sqlite import SqliteMap
+    import contextlib
+    import io
+    _, n_nodes, budget, max_elmt = inst[:4]          # (kind, nodes, budget, max_elmt): main() inserts the budget at position 2
+    graph = {i: [] for i in range(1, n_nodes + 1)}
+    shims.install()
+    sqlcommon.install()
+    d = sqlcommon.scratch_dir()
+    cnt = [0]
+    name = f"sqlite latlon nodes n={n_nodes} max_elmt={max_elmt} (stand-ins for distance and box)"
+
+    def tid(x):
+        return x.t.get_id() if E.is_sym(x) else repr(x)
+
+    def scenario():
+        eng = E.get_engine()
+        memo = {}
+        sqlshim.reset()
+        cnt[0] += 1
+        coords = {n: (eng.fresh(f"lat{n}"), eng.fresh(f"lon{n}")) for n in graph}
+        loc = (eng.fresh("qlat"), eng.fresh("qlon"))
+        r = eng.fresh("r")
+        eng.assume(r.t > 0)
+        with contextlib.redirect_stdout(io.StringIO()):
+            m = SqliteMap(f"c11ll_{cnt[0]}", use_latlon=True, dir=d)
+            for n in graph:
+                m.add_node(n, coords[n])
+
+        def distance(p1, p2):
+            k = ('d', tid(p1[0]), tid(p1[1]), tid(p2[0]), tid(p2[1]))
+            if k not in memo:
+                memo[k] = eng.fresh(f"D{len(memo)}")
+                eng.assume(memo[k].t >= 0)
+            return memo[k]
+
+        def box(p, dist_):
+            k = ('b', tid(p[0]), tid(p[1]), tid(dist_))
+            if k not in memo:
+                b = tuple(eng.fresh(f"box{len(memo)}_{i}") for i in range(4))
+                eng.assume(z3.And(b[0].t <= E.lift(p[0]), E.lift(p[0]) <= b[2].t, b[1].t <= E.lift(p[1]), E.lift(p[1]) <= b[3].t))
+                memo[k] = b
+            return memo[k]
+        m.distance, m.box_around_point = distance, box
+        res = m.nodes_closeto(loc, max_dist=r, max_elmt=max_elmt)
+        dist = {n: distance(loc, coords[n]) for n in graph}
+        bb = box(loc, r)
+        return dict(coords=coords, loc=loc, r=r, res=res, dist=dist, bb=bb)
+
+    def claims(eng, v):
+        L = E.lift
+        res, dist, r, bb, coords = v['res'], v['dist'], L(v['r']), v['bb'], v['coords']
+        got = [row[1] for row in res]
+        cl = [('no_duplicates_and_only_map_nodes', z3.BoolVal(len(set(got)) == len(got) and all(g in graph for g in got))),
+              ('at_most_max_elmt', z3.BoolVal(max_elmt is None or len(got) <= max_elmt))]
+        for row in res:
+            cl.append((f'distance_of_{row[1]}_is_the_map_distance_and_within_radius', z3.And(L(row[0]) == L(dist[row[1]]), L(row[0]) < r)))
+        cl.append(('sorted_by_distance', z3.And(*[L(a[0]) <= L(b[0]) for a, b in zip(res, res[1:])]) if len(res) > 1 else z3.BoolVal(True)))
+        full = max_elmt is not None and len(got) == max_elmt
+        for n in graph:
+            if n in got:
+                continue
+            in_box = z3.And(L(coords[n][0]) >= L(bb[0]), L(coords[n][0]) <= L(bb[2]), L(coords[n][1]) >= L(bb[1]), L(coords[n][1]) <= L(bb[3]))
+            farther = z3.And(*[L(dist[n]) >= L(dist[k]) for k in got]) if full else z3.BoolVal(False)
+            cl.append((f'omitted_{n}_is_outside_or_not_among_the_nearest', z3.Or(z3.Not(in_box), L(dist[n]) >= r, farther)))
+        return cl
+
+    def confirm(eng, model, v, cname):
+        if not isinstance(v, dict) and isinstance(v, sqlshim.SqlShimError):
+            raise RuntimeError(f"the SQL stand-in cannot interpret a statement issued by the code under test ({v}); this check cannot decide this tree")
+        with shims.concrete():
+            sqlcommon.uninstall()
+            try:
+                for cc, loc, r in LATLON_GRID:
+                    cc = {n: cc[n] for n in graph}
+                    bad = concrete_latlon(graph, cc, loc, r, max_elmt)
+                    if bad:
+                        return dict(desc=f"SqliteMap(use_latlon=True).nodes_closeto(loc={loc}, max_dist={r}, max_elmt={max_elmt}) on {cc}: {bad}",
+                                    kind='latlon_topk', coords={str(k): list(p) for k, p in cc.items()}, loc=list(loc), radius=r, max_elmt=max_elmt, n=n_nodes)
+            finally:
+                sqlcommon.install()
+        return None
+
+    try:
+        out = runner.explore(name, runner.lra_engine(8000), scenario, claims, confirm=confirm, budget_s=budget,
+                             witness=lambda eng, v: [f'latlon_result_size_{len(v["res"])}'])
+    finally:
+        sqlcommon.uninstall()
+        shims.uninstall()
+        shutil.rmtree(d, ignore_errors=True)
+    return out
+
+
 def run_instance(inst):
+    if inst[0] == 'latlon_topk':
+        return run_latlon_topk(inst)
     import shutil
     from symx import sqlshim
     from harness import sqlcommon
@@ -387,6 +531,7 @@ def instances(tier):
     for lay in LAYOUTS:
         out += [('e1', None, lay), ('e2_bidir', None, lay)]
     out += [('e2_fan', None, 'unit'), ('e2_fan', 1, 'unit'), ('e3_fan', 2, 'fan3', 'inmem+topk'), ('e3_fan', 2, 'star3', 'inmem+topk'), ('e3_fan', 2, 'fan3', 'inmem+topk1d'), ('e3_fan', 2, 'fan3', 'sqlite+topk1d'), ('e3_fan', 1, 'long', 'inmem+topk'), ('n3', 2, 'unit', 'inmem+topk'), ('e1_selfloop', None, 'long'), ('e2_fan', 1, 'metres1e7')]
+    out += [('latlon_topk', 2, 1), ('latlon_topk', 2, None), ('latlon_topk', 3, 2)]
     out += [('n1', None, None, 'sqlite'), ('n2', None, None, 'sqlite'), ('n2', 1, 'metres1e7', 'sqlite'), ('n2', None, 'metres1e7', 'sqlite'), ('n3', None, 'unit', 'sqlite'), ('e1', None, 'unit', 'sqlite'),
             ('e1', None, 'long', 'sqlite'), ('e2_bidir', None, 'metres1e7', 'sqlite'), ('e2_fan', None, 'diag', 'sqlite')]
     if tier == 'thorough':
@@ -408,10 +553,10 @@ def main(tier):
     from symx.common import fit_budget
     budget = fit_budget(len(instances(tier)), tier, 150, 150)
     res = run_instances(run_instance, [i[:2] + (budget,) + i[2:] for i in instances(tier)])
-    rep.bounds = dict(backend="InMemMap without index (rtree package not installed)", metric="planar",
+    rep.bounds = dict(backend="InMemMap without index (rtree package not installed)", metric="planar; plus SqliteMap.nodes_closeto on a lat-lon map with symbolic stand-ins for distance and box (order logic only)",
                       maps="nodes_closeto: <=%d nodes, all coordinates symbolic; edges_closeto: <=2 directed edges (incl. self-listed neighbour) with coordinates from the layouts %s" % (2 if tier == 'quick' else 3, sorted(LAYOUTS)) + ("; plus 1-2 edges fully symbolic" if tier == 'thorough' else "") + "; query point and radius always symbolic",
                       max_elmt="None, 1" + (", 2" if tier == 'thorough' else ""))
-    rep.outside = ["rounding", "rtree-indexed InMemMap", "latitude-longitude metric (needs the angle algebra; see DESIGN.md)", "SqliteMap runs use the parsing SQL shim with the float32 interval contract (replay on the real sqlite3)"]
+    rep.outside = ["rounding", "rtree-indexed InMemMap", "latitude-longitude metric beyond the order logic of SqliteMap.nodes_closeto (the geodesic primitives are C14's subject)", "SqliteMap runs use the parsing SQL shim with the float32 interval contract (replay on the real sqlite3)"]
     rep.assumptions = ["math.sqrt exact", "np.isclose as |a-b|<=atol", "list.sort on tuples of symbolic numbers forks on comparisons"]
     known = set()
     findings = load_findings(PID)
